@@ -740,6 +740,12 @@ impl Gen<'_, '_> {
         }
         if self.t.weighted(&[2, 1]) == 0 {
             self.push(tb, Op::Shutdown);
+            // give the client a chance to start shutting down before the reply is dropped
+            match self.t.weighted(&[1, 1, 1]) {
+                0 => {}
+                1 => self.push(tb, Op::SyncClient),
+                _ => self.push(tb, Op::Yield(2)),
+            }
         }
         self.push(tb, Op::DropReply);
     }
